@@ -185,7 +185,7 @@ def mutations(rng, text, n):
 
 def c11(ck):
     rng = random.Random(ck.seed)
-    quick = ck.tier == "quick"
+    quick = ck.quick
     model_ok, ok = prep(ck, "C11.v")
     if not ok:
         return
@@ -268,7 +268,7 @@ def c11(ck):
 
 def c12(ck):
     rng = random.Random(ck.seed)
-    quick = ck.tier == "quick"
+    quick = ck.quick
     model_ok, ok = prep(ck, "C12.v")
     if not ok:
         return
@@ -346,7 +346,7 @@ SGR = re.compile(r"\x1b\[[0-9;]*m")
 
 def c10(ck):
     rng = random.Random(ck.seed)
-    quick = ck.tier == "quick"
+    quick = ck.quick
     model_ok, ok = prep(ck, "C10.v")
     if not ok:
         return
